@@ -138,6 +138,52 @@ func buildDoc(raw json.RawMessage) interface{} {
 	return build(x)
 }
 
+// buildDocAliased builds the document so that containers with identical descriptors are ONE shared Go object
+// (a document assembled in Go code may reference the same map or slice from several parents).
+func buildDocAliased(raw json.RawMessage) interface{} {
+	var x interface{}
+	dec := json.NewDecoder(strings.NewReader(string(raw)))
+	dec.UseNumber()
+	if err := dec.Decode(&x); err != nil {
+		panic("bad doc descriptor: " + err.Error())
+	}
+	memo := map[string]interface{}{}
+	var rec func(x interface{}) interface{}
+	rec = func(x interface{}) interface{} {
+		if m, ok := x.(map[string]interface{}); ok {
+			_, isA := m["a"]
+			_, isO := m["o"]
+			if isA || isO {
+				key, _ := json.Marshal(x)
+				if v, ok := memo[string(key)]; ok {
+					return v
+				}
+				var out interface{}
+				if isA {
+					arr := m["a"].([]interface{})
+					o := make([]interface{}, len(arr))
+					for i := range arr {
+						o[i] = rec(arr[i])
+					}
+					out = o
+				} else {
+					arr := m["o"].([]interface{})
+					o := make(map[string]interface{}, len(arr))
+					for _, kv := range arr {
+						p := kv.([]interface{})
+						o[unhex(p[0].(string))] = rec(p[1])
+					}
+					out = o
+				}
+				memo[string(key)] = out
+				return out
+			}
+		}
+		return build(x)
+	}
+	return rec(x)
+}
+
 func build(x interface{}) interface{} {
 	switch v := x.(type) {
 	case nil:
